@@ -548,6 +548,20 @@ def _get_root(fun, start, end, tol=0.01):
 
 
 def _get_max_parab(fun, start, end, tol=0.01):
+    """Successive parabolic interpolation, safeguarded by a bounded search."""
+    x_p = _successive_parabolic_interpolation(fun, start, end, tol=tol)
+    # The peak of a near-overhead pass is a cusp on which the interpolation can stop short of the
+    # extremum: keep its answer unless a bounded minimisation finds a clearly lower value.
+    a = float(start)
+    c = float(end)
+    if a < c:
+        res = optimize.minimize_scalar(fun, bounds=(a, c), method="bounded", options={"xatol": tol})
+        if res.fun < fun(x_p) - 1e-7:
+            return float(res.x)
+    return x_p
+
+
+def _successive_parabolic_interpolation(fun, start, end, tol=0.01):
     """Successive parabolic interpolation."""
     a = float(start)
     c = float(end)
